@@ -1,4 +1,5 @@
 import GoUefi.Driver.C17
+import GoUefi.Driver.SigDb
 /-
   Line protocol driver: one operation per line in (`<id> <op> <args…>`), one canonical line
   out (`<id> <result>`).  Unknown operations and malformed arguments answer `bad-op`.
@@ -6,7 +7,8 @@ import GoUefi.Driver.C17
 open GoUefi.Drv
 
 def dispatch (op : String) (args : List String) : String :=
-  match handleC17 op args with
+  let hs : List (String → List String → Option String) := [handleC17, handleSigDb]
+  match hs.findSome? (fun h => h op args) with
   | some r => r
   | none => "bad-op"
 
